@@ -2,7 +2,12 @@ package main
 
 import (
 	"context"
+	"dvh/internal/crashstore"
 	"fmt"
+	"github.com/oneconcern/datamon/pkg/storage/localfs"
+	"github.com/spf13/afero"
+	"os"
+	"path/filepath"
 	"sort"
 	"strings"
 	"sync"
@@ -50,8 +55,8 @@ func c15Files(t map[string][2]uint64) map[string][]byte {
 
 // c15Emit writes one operation's result as a C04-format case: the sequential model of that
 // operation alone is the expected outcome.
-func c15Emit(c *ctx, env *corekit.Env, leaf int, a *c15Actor, what string) {
-	c.w.Case("c04 leaf=%d perfile=1000 c15=%s", leaf, what)
+func c15Emit(c *ctx, env *corekit.Env, leaf int, per uint, a *c15Actor, what string) {
+	c.w.Case("c04 leaf=%d perfile=%d c15=%s", leaf, per, what)
 	for _, k := range c04SortedKeys(a.tree) {
 		v := a.tree[k]
 		c.w.Note(fmt.Sprintf("file name=%s content=gen:%d:%d", tr.Esc(k), v[0], v[1]))
@@ -62,7 +67,7 @@ func c15Emit(c *ctx, env *corekit.Env, leaf int, a *c15Actor, what string) {
 		return
 	}
 	mb := corekit.NewBundle(env.Stores, "r", nil, 0, a.bundleID)
-	if err := corekit.Recover(func() error { return core.DownloadMetadata(context.Background(), mb) }); err != nil {
+	if err := corekit.Recover(func() error { return core.VerifDownloadMetadata(context.Background(), mb, per) }); err != nil {
 		c.w.Op("upload keys=* skip=0", "ok entries=<unreadable>")
 		c.w.End()
 		return
@@ -76,7 +81,7 @@ func c15Emit(c *ctx, env *corekit.Env, leaf int, a *c15Actor, what string) {
 	files := a.files
 	var derr error
 	if files == nil {
-		files, _, derr = corekit.Download(env.Stores, "r", a.bundleID)
+		files, _, derr = corekit.DownloadPer(env.Stores, "r", a.bundleID, per)
 	}
 	if derr != nil {
 		c.w.Op("download sel=all", "err")
@@ -94,6 +99,9 @@ func c15(c *ctx) error {
 	return c.isolated(n, 180*time.Second, func(i int) {
 		r := tr.NewRng(c.seed*1000003 + uint64(i)*999983 + 71)
 		leaf := r.Pick(64, 64, 4096)
+		// entries per index file (test hook): bundles of a few files span several index files, whose
+		// reads complete in any order
+		per := uint(r.Pick(1, 2, 3, 1000))
 		env := corekit.NewEnv()
 		if env.CreateRepo("r") != nil {
 			return
@@ -102,7 +110,9 @@ func c15(c *ctx) error {
 		var pre []*c15Actor
 		for j := 0; j < 2; j++ {
 			a := &c15Actor{kind: "pre", tree: c15Tree(r, leaf)}
-			a.bundleID, a.err = env.UploadTree("r", c15Files(a.tree), uint32(leaf))
+			pb := corekit.NewBundle(env.Stores, "r", corekit.TreeStore(c15Files(a.tree)), uint32(leaf), "")
+			a.err = corekit.Recover(func() error { return core.VerifUpload(context.Background(), pb, per, nil) })
+			a.bundleID = pb.BundleID
 			if a.err != nil {
 				return
 			}
@@ -144,12 +154,14 @@ func c15(c *ctx) error {
 				switch a.kind {
 				case "upload":
 					b := corekit.NewBundle(env.Stores, "r", corekit.TreeStore(c15Files(a.tree)), uint32(leaf), "")
-					a.err = corekit.Recover(func() error { return core.Upload(context.Background(), b) })
+					a.err = corekit.Recover(func() error { return core.VerifUpload(context.Background(), b, per, nil) })
 					a.bundleID = b.BundleID
 				case "download":
 					dst := memstore.New("dest")
 					b := corekit.NewBundle(env.Stores, "r", dst, 0, a.bundleID)
-					a.err = corekit.Recover(func() error { return core.Publish(context.Background(), b) })
+					a.err = corekit.Recover(func() error {
+						return core.VerifPublish(context.Background(), b, per, func(string) (bool, error) { return true, nil })
+					})
 					a.files, _ = corekit.SplitMeta(dst.Snapshot())
 				case "label":
 					a.err = c06SetLabel(env, a.label, pre[a.target].bundleID)
@@ -179,10 +191,10 @@ func c15(c *ctx) error {
 		for j, a := range actors {
 			switch a.kind {
 			case "upload", "download":
-				c15Emit(c, env, leaf, a, fmt.Sprintf("%s/%d", a.kind, j))
+				c15Emit(c, env, leaf, per, a, fmt.Sprintf("%s/%d", a.kind, j))
 			case "commit":
 				// splits (and the bundle committed from them) use the default leaf size
-				c15Emit(c, env, int(model.NewBundleDescriptor().LeafSize), a, fmt.Sprintf("%s/%d", a.kind, j))
+				c15Emit(c, env, int(model.NewBundleDescriptor().LeafSize), core.VerifDefaultEntriesPerFile, a, fmt.Sprintf("%s/%d", a.kind, j))
 			case "label":
 				c.w.Case("c04 leaf=%d perfile=1000 c15=label/%d", leaf, j)
 				res := corekit.ErrClass(a.err)
@@ -205,9 +217,45 @@ func c15(c *ctx) error {
 				c.w.End()
 			}
 		}
+		// a download into a destination that retries (localfs, default policy) with one chunk writer per
+		// file, while ONE blob read fails transiently: it fails, or the files are exactly the bundle's
+		{
+			p := pre[r.Intn(len(pre))]
+			dir := filepath.Join(os.Getenv("VERIF_WORK"), fmt.Sprintf("c15r-%d-%d", c.seed, i))
+			_ = os.MkdirAll(dir, 0o755)
+			dst := localfs.New(afero.NewBasePathFs(afero.NewOsFs(), dir))
+			g := &crashstore.Group{FailReadOp: "get", FailReadAt: 2 + r.Intn(8)}
+			st := corekit.WithStores(env.Wal, env.ReadLog, crashstore.Wrap(g, "blob", env.Blob), env.Meta, env.VMeta)
+			conc := r.Pick(1, 3, 5, 10)
+			b := corekit.NewBundle(st, "r", dst, 0, p.bundleID, core.ConcurrentFileDownloads(conc))
+			derr := corekit.Recover(func() error {
+				return core.VerifPublish(context.Background(), b, per, func(string) (bool, error) { return true, nil })
+			})
+			if g.Reads() >= g.FailReadAt {
+				got := "err"
+				if derr == nil {
+					got = "same"
+					have := c04ReadDir(dir)
+					want := c15Files(p.tree)
+					if len(have) != len(want) {
+						got = fmt.Sprintf("differ:%d-files-instead-of-%d", len(have), len(want))
+					}
+					for k, v := range want {
+						if string(have[k]) != string(v) {
+							got = "differ:" + tr.Esc(k)
+						}
+					}
+				}
+				c.w.Case("c04 leaf=%d perfile=%d c15=download-with-read-fault", leaf, per)
+				c.w.Op(fmt.Sprintf("downloadf conc=%d at=%d got=%s", conc, g.FailReadAt, got), "sound")
+				c.w.End()
+				c.w.Count("op=download-with-read-fault")
+			}
+			_ = os.RemoveAll(dir)
+		}
 		// the bundles that existed before are intact
 		for j, p := range pre {
-			c15Emit(c, env, leaf, p, fmt.Sprintf("pre/%d", j))
+			c15Emit(c, env, leaf, per, p, fmt.Sprintf("pre/%d", j))
 		}
 	})
 }
